@@ -136,6 +136,18 @@ fn copula_not_a_name_suffix_tail(f: &NarseseFormat<&str>, j: usize) -> bool {
 /// only formats that write NO space between a subject and the copula are exposed: with a space
 /// (which is not a name character) the name ends before the copula is looked at
 fn check_copula_overlap(f: &NarseseFormat<&str>) {
+    // what can follow an atom name directly must not be a name character (else the name swallows it):
+    // the separator, the four closing brackets, the punctuations
+    let first_is_name = |kw: &str| match kw.chars().next() { Some(c) => (f.is_valid_atom_name)(c), None => false };
+    assert!(!first_is_name(f.compound.separator), "the separator does not start with a name character");
+    assert!(!first_is_name(f.compound.brackets.1), "the closing compound bracket does not start with a name character");
+    assert!(!first_is_name(f.compound.brackets_set_extension.1), "the closing extension-set bracket does not start with a name character");
+    assert!(!first_is_name(f.compound.brackets_set_intension.1), "the closing intension-set bracket does not start with a name character");
+    assert!(!first_is_name(f.statement.brackets.1), "the closing statement bracket does not start with a name character");
+    assert!(!first_is_name(f.sentence.punctuation_judgement), "the judgement mark does not start with a name character");
+    assert!(!first_is_name(f.sentence.punctuation_goal), "the goal mark does not start with a name character");
+    assert!(!first_is_name(f.sentence.punctuation_question), "the question mark does not start with a name character");
+    assert!(!first_is_name(f.sentence.punctuation_quest), "the quest mark does not start with a name character");
     if !f.space.format_terms.is_empty() {
         let first = f.space.format_terms.chars().next().unwrap();
         assert!(!(f.is_valid_atom_name)(first), "the term-level space starts with a non-name character");
